@@ -10,6 +10,11 @@ CLAIMS = {
         text="Exploration. Every solid whose set bits fit a 2x2x2, 3x2x2 or 3x3x2 block (all three orientations) is meshed through the public API and checked for closedness, orientation, single vertex fans and winding number 1/0 at contained/excluded lattice points (thorough: all 786432 blocks; quick: every 13th); all 3x3 and 4x4 blocks for marching squares, all 4x4 bitmaps; plus random lattices, CSG trees and spacings through every API variant and random valid parameters of the other mesh generators.",
         note="Trusted: the harness topology/winding oracles (kit/geom.go), Go == as vertex identity (as the library documents). Exhaustiveness is over lattice classifications up to 3x3x2 neighbourhoods, which determine all triangles around any mesh vertex; larger-scale interactions are sampled, not enumerated.",
         design="3/C01"),
+    "C02": dict(
+        technique="property-based testing (rapid) with a lattice-relation invariant oracle: winding numbers, vertex/edge bijection, observed bisection brackets, perturbed exact crossing counts",
+        text="Exploration. Random CSG trees (thin features), trilinear random fields and lattice solids at random spacings and search iteration counts: the marching-cubes/squares lattice is observed through a recording solid; every lattice point must have winding number 1/0 as the solid says, the distinct vertices must be in bijection with the sign-changing lattice edges and lie strictly inside them, the two closest evaluated points around each vertex must be classified differently and be no farther apart than spacing/2^iterations, interior points must be contained. Dual contouring with clipping over NoJitter/MaxGos/BufferSize/CubeMargin/TriangleMode/L2Penalty/SingularValueEpsilon: each lattice edge is crossed exactly once iff its ends differ (perturbed exact crossing test), with the normal pointing to the excluded end; one vertex per active cell, inside the cell by the margin; interior points contained and one per active edge.",
+        note="Trusted: harness oracles (kit.Winding3/2, kit.AxisCrossings); the dual-contouring lattice is obtained from the verif hook (newDcCubeLayout), so a change of lattice placement is followed automatically. With Repair on only the interior-point clauses are asserted (repair is documented as best effort).",
+        design="3/C02"),
     "C09": dict(
         technique="model-based (stateful) property testing with rapid: operation histories against a reference face list / Go map",
         text="Exploration. Random histories (<= 45 steps) of Add/Remove/AddMesh/Copy/DeepCopy/Translate/Scale/MapCoords (merging)/Transform/InvertNormals interleaved with queries that build the lazy vertex index at arbitrary moments, for 2D and 3D meshes, compared after every step with a brute-force model over the harness's own list of face pointers; histories over all six coordinate/edge map types of both packages against a Go map keyed by the same type, with hash-colliding and signed-zero keys; and outputs of the library's in-place editors (marching-cubes search, FlattenBase, EliminateEdges, decimation, dual contouring with repair) compared with a fresh mesh of their faces, also after further edits.",
